@@ -1,6 +1,6 @@
 (* Properties/C02.v -- silence outside scope; replies only from configured
    identities. This file only pins statements; the proofs are in Proofs/C02.v. *)
-From MS Require Import L2 Spec.View Spec.RefDec Spec.C02 Proofs.C02.
+From MS Require Import L2 Spec.View Spec.RefDec Spec.C02 Proofs.C02 Proofs.C02Cor.
 
 (* For every configuration, table and frame: what is emitted satisfies the C02
    monitor. A frame whose destination MAC is not one of the authorised addresses
@@ -28,3 +28,38 @@ Proof. exact out_of_scope_is_inert. Qed.
 
 Print Assumptions C02_scope_and_identity.
 Print Assumptions C02_out_of_scope_is_inert.
+
+(* The identity clause as plain statements about the decoded reply (no monitor
+   in the statement): with a self-IP list l configured, ... *)
+
+(* ... an ARP reply speaks for an address on the list; *)
+Theorem C02_arp_reply_identity :
+  forall E cfg clk tb tb' f rf evs l,
+    cfg_ok cfg = true -> bytes_ok f = true ->
+    reply E cfg clk tb f = Ok (tb', Some rf, evs) -> c_self cfg = Some l ->
+    forall e, dec_eth rf = Some e -> de_type e = 2054 ->
+    exists a, dec_arp (de_payload e) = Some a /\ ip_in (V4 (da_spa a)) l = true.
+Proof. exact arp_reply_identity. Qed.
+Print Assumptions C02_arp_reply_identity.
+
+(* ... an IP reply leaves from an address on the list; *)
+Theorem C02_ip_reply_identity :
+  forall E cfg clk tb tb' f rf evs l,
+    cfg_ok cfg = true -> bytes_ok f = true ->
+    reply E cfg clk tb f = Ok (tb', Some rf, evs) -> c_self cfg = Some l ->
+    forall e, dec_eth rf = Some e -> de_type e <> 2054 ->
+    exists i, dec_ip e = Some i /\
+              ip_in (if di_v4 i then V4 (di_src i) else V6 (di_src i)) l = true.
+Proof. exact ip_reply_identity. Qed.
+Print Assumptions C02_ip_reply_identity.
+
+(* ... and a neighbour advertisement advertises a target on the list. *)
+Theorem C02_na_reply_identity :
+  forall E cfg clk tb tb' f rf evs l,
+    cfg_ok cfg = true -> bytes_ok f = true ->
+    reply E cfg clk tb f = Ok (tb', Some rf, evs) -> c_self cfg = Some l ->
+    forall e i, dec_eth rf = Some e -> de_type e <> 2054 -> dec_ip e = Some i ->
+    di_v4 i = false -> di_proto i = 58 -> u8_at 0 (di_payload i) = 136 ->
+    ip_in (V6 (firstn 16 (skipn 8 (di_payload i)))) l = true.
+Proof. exact na_reply_identity. Qed.
+Print Assumptions C02_na_reply_identity.
